@@ -36,7 +36,7 @@ RULE = ("n in 1..8 (thorough 24), ncols 1..3, target batch rank 0..2 (dims 1..3)
         "f32/f64/c128; spectrum kind {spd, indef, few_spd, normal_rhp, general, few_normal} with cond <= kappa in {2,10,100,1000}; "
         "operator kind {dense, mv, mv_rmv, mv_mm, all, add, sub, scale, matmul, H.H, adjoint-of-adjoint, jac}; Hermitian flag on/off; "
         "E mode {none, E, E+M, M only}; real/complex shifts; method {exactsolve, custom_exactsolve, cg, bicgstab, gmres, broyden1}; "
-        "options (rtol, atol, max_niter, resid_calc_every, posdef, f_tol); zero columns / all-zero B. Non-trivial = n>=2, B not "
+        "options (rtol, atol, max_niter, resid_calc_every, posdef, preconditioners, f_tol, line_search); zero columns / all-zero B. Non-trivial = n>=2, B not "
         "identically zero and the call was silent (so the accuracy claim was actually decided); distinct by (method, E mode, kind, "
         "dtype, spectrum, batch class, n, in-class flag).")
 ASSUMPTIONS = [
@@ -135,10 +135,21 @@ def run_case(case):
     opts = dict(case["opts"])
     if "max_niter" in opts and method == "broyden1":
         opts["maxiter"] = opts.pop("max_niter")
+    pre = opts.pop("precond", None)
+    if pre:
+        # any Hermitian positive definite preconditioner is legitimate (unbatched: it must broadcast over every layout)
+        P = xitorch.LinearOperator.m(R.spd_matrix(g, [], n, dt, 0.3, 3.0).to(dt), is_hermitian=True)
+        if method == "cg":
+            opts["precond"] = P
+        elif method == "bicgstab":
+            if "l" in pre:
+                opts["precond_l"] = P
+            if "r" in pre:
+                opts["precond_r"] = P
     cls = in_silent_class(case, bool(Aop.is_hermitian))
     batchclass = "b%d%d%d%d" % (len(case["bA"]), len(case["bB"]), len(case["bE"]) if E is not None else 0, len(case["bM"]) if M is not None else 0)
     labels = ["method=" + method, "emode=" + case["emode"], "kind=" + kind, "dtype=" + case["dtype"], "spec=" + case["spec"],
-              "batch=" + batchclass, "zero=" + case["zero"], "class=%s" % cls]
+              "batch=" + batchclass, "zero=" + case["zero"], "class=%s" % cls, "precond=%s" % pre, "opts=%s" % bool(case["opts"])]
 
     with warnings.catch_warnings(record=True) as wlist:
         warnings.simplefilter("always")
@@ -282,6 +293,8 @@ def case_st(draw, tier="quick", methods=METHODS):
                 opts["resid_calc_every"] = draw(st.sampled_from([0, 1, 3]))
             if draw(st.integers(0, 3)) == 0:
                 opts["posdef"] = False
+            if method in ("cg", "bicgstab") and draw(st.integers(0, 3)) == 0:
+                opts["precond"] = draw(st.sampled_from(["l", "r", "lr"]))
         elif method == "broyden1":
             if draw(st.booleans()):
                 opts["f_tol"] = draw(st.sampled_from([1e-4, 1e-6, 1e-9] if dtype != "f32" else [1e-3, 1e-4]))
